@@ -2,7 +2,7 @@ SPEC = {
     'id': 'C18',
     'harness': 'hC18',
     'coq_dir': 'C18',
-    'claimed': False,
+    'claimed': True,
     'theorems': [
         'C18_parallel_eq_sequential',
         'C18_root_is_tree_root',
@@ -17,7 +17,7 @@ SPEC = {
         'C18_example_parallel_and_branch',
     ],
     'allowed_axioms': [],
-    'shard': 230,
+    'shard': 450,
     'rule': 'jobs are a deterministic function of (seed, tier): every leaf count 0..400 (thorough 0..3000) with distinct leaves, '
             'sampled counts up to 3000 (thorough 20000) around the step/cap boundaries (c*2^k +-1, multiples of 256 +-1) and random ones; '
             'each count is evaluated by GetMerkleRoot in child processes pinned with taskset to 1,2,3,4,8,16 CPUs (thorough 1..16) so that '
@@ -52,4 +52,5 @@ SPEC = {
         'technique': 'Coq proof (binary-counter invariant over the leaf list, level-wise reduction lemma for the chunked root) + in-kernel correspondence check with a table-backed hash',
     },
     'harness_timeout': {'quick': 400, 'thorough': 3000},
+    'coqc_timeout': 3000,
 }
